@@ -4,6 +4,7 @@ use crate::core::{Ctx, Prop};
 use crate::item::Scenario;
 use crate::prng::Rng;
 use crate::w_defrag;
+use crate::w_dgram;
 use crate::w_flow;
 use crate::w_ser;
 use crate::w_stream;
@@ -11,9 +12,17 @@ use crate::w_stream;
 pub fn generate(prop: Prop, rng: &mut Rng) -> Scenario {
     match prop {
         Prop::C07 => w_defrag::generate(rng, prop),
-        Prop::C02 | Prop::C03 | Prop::C16 => w_stream::generate(rng, prop),
+        Prop::C02 | Prop::C03 => w_stream::generate(rng, prop),
+        Prop::C16 => {
+            if rng.chance(1, 3) {
+                w_dgram::generate(rng, prop)
+            } else {
+                w_stream::generate(rng, prop)
+            }
+        }
         Prop::C08 => w_flow::generate(rng, prop),
         Prop::C09 => w_ser::generate(rng, prop),
+        Prop::C10 => w_dgram::generate(rng, prop),
         _ => w_defrag::generate(rng, prop),
     }
 }
@@ -24,6 +33,7 @@ pub fn execute(scn: &Scenario, ctx: &mut Ctx) {
         "stream" => w_stream::execute(scn, ctx),
         "flow" => w_flow::execute(scn, ctx),
         "ser" => w_ser::execute(scn, ctx),
+        "dgram" => w_dgram::execute(scn, ctx),
         _ => {}
     }
 }
@@ -53,6 +63,7 @@ pub fn cell_name(space: &str, id: u32) -> String {
         "defrag" => w_defrag::cell_name(id),
         "cut" | "rec" | "many" => w_stream::cell_name(space, id),
         "transition" => w_flow::cell_name(id),
+        "dframe" | "dfrag" | "dmany" => w_dgram::cell_name(space, id),
         _ => format!("{}#{}", space, id),
     }
 }
@@ -123,11 +134,24 @@ pub fn meta(prop: Prop) -> Meta {
                 "faulty sink oracle is deliberately narrow: the call may fail; only 'Ok => the sink holds the complete fault-free encoding' is required",
             ],
         },
+        Prop::C10 => Meta {
+            level: "exploration",
+            rule: "one evaluation = one simulated DTLS conversation: a sender stub emits flights of handshake messages (ClientHello with cookie, HelloVerifyRequest, ServerHello, Certificate, ServerHelloDone, ClientKeyExchange and, as fragments only, other kinds) with message_seq, fragmented to a per-run MTU (64..1500), packed into records and datagrams (several fragments per record, several records per datagram, CCS/alert records, epochs and 48-bit sequence numbers incl. boundaries) and retransmitted by timers on the simulated clock (1 s doubling to 60 s) with possible MTU change (overlapping fragments); the datagram network loses, duplicates, reorders and truncates; the monitor runs the real parsers on every delivered datagram; distinct = distinct abstract traces (per datagram/record: content type x outcome class x size class); non-trivial = at least 2 datagrams delivered or a fault fired",
+            fault_kinds: &["dgram-loss", "dgram-dup", "dgram-reorder", "dgram-truncate", "multi-record-datagram", "fragment", "zero-length-fragment", "overlapping-fragments", "delivered-unfragmented", "reassembled", "bitflip"],
+            cell_spaces: vec![("dframe", Some((0..16).collect())), ("dfrag", Some(vec![0, 1, 4, 5, 6, 7])), ("dmany", None)],
+            real: &["parse_dtls_plaintext_records", "parse_dtls_plaintext_record", "parse_dtls_record_header", "parse_dtls_record_with_header", "parse_dtls_message_handshake", "DTLSMessage::is_fragment", "Debug of returned values"],
+            stub: &["DTLS sender (flights, MTU fragmentation, retransmit timers)", "simulated clock / event queue", "datagram network (loss, dup, reorder, truncate)", "reference RFC encoder", "reference 13-byte framer", "harness reassembler (consumes only parser output)"],
+            assumptions: &[
+                "the parser is stateless: loss/dup/reorder cannot change what one datagram decodes to; their role is to generate (offset, length, seq, epoch, MTU) combinations and to make the conservation oracle bite when a header field is returned wrong",
+                "unfragmented messages of kinds the property does not list are unconstrained (records containing one are excluded from the sender-side truth table)",
+                "bounded liveness is checked as conservation at the end of the history: every message all of whose bytes were delivered in fragments is reassembled from parser output",
+            ],
+        },
         Prop::C16 => Meta {
             level: "exploration",
             rule: "one evaluation = one simulated TLS byte stream (see C02) ; at every delivery event tls_parser_many is applied to the monitor's receive buffer (n complete records followed by nothing, a partial record, an oversize header or garbage) and compared with an explicit loop over parse_tls_plaintext (list, remainder by address, fails-iff-first-fails), and the deprecated tls_parser with parse_tls_plaintext as full results; DTLS datagram buffers are covered by the dgram world; distinct = distinct abstract traces; non-trivial = >= 2 records / events or a fault fired",
             fault_kinds: &["seg-dribble", "trailing-inflight", "eof", "length-lie", "garbage-inject", "bitflip", "byte-drop", "byte-insert", "coalesce"],
-            cell_spaces: vec![("many", Some(vec![0, 1, 2, 4, 5, 6, 8, 9, 10, 12, 13, 14]))],
+            cell_spaces: vec![("many", Some(vec![0, 1, 2, 4, 5, 6, 8, 9, 10, 12, 13, 14])), ("dmany", Some(vec![0, 1, 2, 3, 4, 5, 6, 7, 8, 9, 10, 11]))],
             real: &["tls_parser_many", "tls_parser", "parse_tls_plaintext", "parse_dtls_plaintext_records", "parse_dtls_plaintext_record"],
             stub: &["peers, encoder, record layer, byte pipe / datagram net", "explicit single-record loop"],
             assumptions: &["the single-record parser is the specification of the many-parser (relation between two real functions)"],
